@@ -288,6 +288,19 @@ def _update_local_references(rules):
         if node.is_reference and counter.is_bound(node.name):
             node.is_local = True
 
+        # Also record the bound names that are used by inline Python code and
+        # by repetition counts. (They have to be handed to helper functions.)
+        sources = []
+        if isinstance(node, ex.PythonExpression):
+            sources.append(node.source_code)
+        elif isinstance(node, ex.List):
+            sources.extend(x for x in [node.min_len, node.max_len] if isinstance(x, str))
+
+        used = set()
+        for source in sources:
+            used.update(re.findall(r'[_a-zA-Z][_a-zA-Z0-9]*', source))
+        node.local_names = {x for x in used if counter.is_bound(x) or x in fields}
+
     def postvisit(node):
         counter.postvisit(node)
         if isinstance(node, ex.Class):
